@@ -105,6 +105,7 @@ func runC04(c *Ctx) {
 			}
 		}
 	}
+	var recClo *ssa.Function
 	if deferIns == nil {
 		c.Bad("R1.recover", "Run|deferred closure calling recover() directly", w.FnPos(run), "gensign.Run does not defer a closure that itself calls recover() (recover in a helper called by the deferred function does not stop a panic)")
 	} else {
@@ -115,6 +116,7 @@ func runC04(c *Ctx) {
 			clo = w.helperOf(deferIns)
 		}
 		c.Saw(clo)
+		recClo = clo
 		// resultCell: the variable of Run that address addr (a captured variable of the closure, or a pointer parameter
 		// of the deferred function bound to &variable) denotes
 		resultCell := func(addr ssa.Value) ssa.Value {
@@ -218,6 +220,25 @@ func runC04(c *Ctx) {
 			c.Check(okAll, "R1.recover", "Run$recover|every recovered panic becomes a Panic error", w.FnPos(clo), "from r != nil every path to the closure's end stores the Panic error", "some recovered panics (e.g. of an unexpected value type) leave the result untouched: the run reports success although a handler or signer panicked")
 		}
 	}
+	// the recovering closure itself runs no foreign code: a panic raised while a panic is being handled is not
+	// recovered by the same closure and ends the process
+	if clo := recClo; clo != nil {
+		nForeign := 0
+		for _, h := range w.Tree(clo) {
+			if h != clo && hasRecoverDefer(w, h) {
+				continue // a helper with a recover of its own
+			}
+			for _, call := range callsIn(h) {
+				if call.Common().IsInvoke() && w.InRepoType(call.Common().Value.Type()) {
+					nForeign++
+					c.Bad("R1.recover", "Run$recover|"+shortName(call.Common().Method.FullName())+" while handling a panic", w.Pos(call.Pos()), "the recovering closure calls a method of a handler / signer / agent key ("+shortFn(h)+"): a panic raised there escapes Run and crashes the process")
+				}
+			}
+		}
+		if nForeign == 0 {
+			c.Ok("R1.recover", "Run$recover|no handler/signer/agent-key method on the recovery path", w.FnPos(clo), "census over the closure's tree")
+		}
+	}
 	// no go statements in Run and handler method trees
 	roots := []*ssa.Function{run}
 	for _, h := range m.Handlers {
@@ -253,7 +274,23 @@ func runC04(c *Ctx) {
 	addErr := ssa.Value(m.AddCall)
 	nonNilIn := func(facts map[Lit]bool, v ssa.Value) bool { n, k := f.knownNilIn(facts, v); return k && !n }
 	sites := []site{
-		{"no handler authenticated", "AllAuthFailed", func(facts map[Lit]bool) bool { n, k := f.knownNilIn(facts, genRecv); return k && n }},
+		{"no handler authenticated", "AllAuthFailed", func(facts map[Lit]bool) bool {
+			if n, k := f.knownNilIn(facts, genRecv); k && n {
+				return true
+			}
+			// the selection as a library search over the handlers: "not found"
+			for _, sc := range searchCallsIn(run) {
+				if sc.pred != m.AuthCall.Parent() {
+					continue
+				}
+				for l := range facts {
+					if v, ok := sc.found(l); ok && !v {
+						return true
+					}
+				}
+			}
+			return false
+		}},
 		{"signer failed", "SignerSignErr", func(facts map[Lit]bool) bool { return nonNilIn(facts, m.SignErr) }},
 		{"agent refused the certificates", "AgentOpCertErr", func(facts map[Lit]bool) bool { return nonNilIn(facts, addErr) }},
 		{"no CSR generated", "HandlerGenCSRErr", func(facts map[Lit]bool) bool {
